@@ -7,10 +7,4 @@ NOT_APPLICABLE = [
                'contract any verifier available here can discharge; a '
                'bounded run of the optimiser would be testing, a different '
                'family'},
-    {'property_id': 'C18',
-     'reason': 'every clause is a statement about complex floating-point '
-               'matrices over all real parameters (unitarity, gradients, '
-               'inverses, agreement with Qiskit); contracts can state it '
-               'but nothing here can discharge it, sampling parameters is '
-               'testing'},
 ]
